@@ -211,7 +211,7 @@ func (d *drv) txn(steps []string) {
 	vf := violFields(alt)
 	d.rc.Emit(rec.M{"ev": "Validate", "kind": "txn", "path": "submit", "steps": steps, "alt": sorted(alt), "accepted": accepted,
 		"hash_changed": t.ComputeHash() != origHash, "why": why, "viol_fields": vf, "unbound": unboundFields(steps, "txn"), "ttype": t.TransactionType,
-		"ntx": 0, "dup_n": 0, "dup_i": 0},
+		"ntx": 0, "dup_n": 0, "dup_i": 0, "dup_neutral": false},
 		fmt.Sprintf("txn/submit/%v/%v", steps, accepted), accepted)
 
 	// the block path: the same object inside a block received by a verifier (miner.ValidateTransactions:
@@ -241,7 +241,7 @@ func (d *drv) txn(steps []string) {
 	}
 	d.rc.Emit(rec.M{"ev": "Validate", "kind": "txn", "path": "block", "steps": steps, "alt": sorted(alt), "accepted": baccepted,
 		"hash_changed": t.ComputeHash() != origHash, "why": bwhy, "viol_fields": vf, "unbound": unboundFields(steps, "txn"), "ttype": t.TransactionType,
-		"ntx": 0, "dup_n": 0, "dup_i": 0},
+		"ntx": 0, "dup_n": 0, "dup_i": 0, "dup_neutral": false},
 		fmt.Sprintf("txn/block/%v/%v", steps, baccepted), baccepted)
 }
 
@@ -489,7 +489,7 @@ func (d *drv) block(steps []string) {
 	}
 	d.rc.Emit(rec.M{"ev": "Validate", "kind": "block", "path": "receive", "steps": steps, "alt": sorted(alt), "accepted": accepted,
 		"hash_changed": b.ComputeHash() != origHash, "why": why, "viol_fields": violFields(alt), "unbound": unboundFields(steps, "block"), "ttype": 0,
-		"ntx": len(b.Txns), "dup_n": dupN, "dup_i": dupI},
+		"ntx": len(b.Txns), "dup_n": dupN, "dup_i": dupI, "dup_neutral": dupN > 0 && dupI == dupN && dupN%2 == 1},
 		fmt.Sprintf("block/%v/%v", steps, accepted), accepted)
 }
 
